@@ -28,10 +28,46 @@ def hex_record(code):
     return rec
 
 
+def texnames_record(rng):
+    """The macro names a TikZ export uses for its labels, links and dots, in drawing order (C20's second observation point): data
+    with texts and without, a palette, and data entered twice (same time, text and width)."""
+    import datetime as dt
+    import re
+    from labella.timeline import TimelineTex
+    n = rng.choice([2, 5, 27, 30, 60])
+    data = [{"time": dt.datetime(2020, 1, 1) + dt.timedelta(days=rng.randint(0, 400)), "width": rng.choice([20, 30]), "text": "t%d" % i}
+            for i in range(n)]
+    for _ in range(rng.choice([0, 1, 3])):
+        data.insert(rng.randrange(len(data) + 1), dict(rng.choice(data)))
+    for d in data:
+        if rng.random() < 0.2:
+            d.pop("text")
+    opts = {"dotColor": ["#111", "#222222", "333", "#444", "#555"], "initialWidth": 3000}
+    rec = {"kind": "texnames", "n": len(data), "labels": [], "links": [], "dots": [], "err": ""}
+    try:
+        doc = TimelineTex(data, opts).export()
+        lab = doc[doc.index("% label layer"):doc.index("% dots")]
+        lnk = doc[doc.index("% link layer"):doc.index("% label layer")]
+        dots = doc[doc.index("% dots"):]
+        asnum = lambda name: [ord(c) - 64 for c in name]
+        rec["labels"] = [asnum(x) for x in re.findall(r"text=labelTextColor(\w+)\]", lab)]
+        seen = []
+        for x in re.findall(r"color=linkColor(\w+),", lnk):
+            if not seen or seen[-1] != x:
+                seen.append(x)
+        rec["links"] = [asnum(x) for x in seen]
+        rec["dots"] = [asnum(x) for x in re.findall(r"fill=dotColor(\w+)\]", dots)]
+    except Exception as ex:
+        rec["err"] = type(ex).__name__
+    return rec
+
+
 def main():
     job = json.load(sys.stdin)
     rng = random.Random(job.get("seed", 0))
     recs = []
+    for _ in range(job.get("texnames", 0)):
+        recs.append(texnames_record(rng))
     for i0, n in job.get("name_blocks", []):
         names = []
         for i in range(i0, i0 + n):
